@@ -364,4 +364,25 @@ HasWitness(d, p, D) ==
   /\ OrigInBounds(d, p)
   /\ \A j \in 1..Len(d.chk0) : ConSat(d.cons[d.chk0[j]], Start(d, p), D)
   /\ Feasible(d, 1, Start(d, p), D)
+
+-----------------------------------------------------------------------------
+(* Part 5.  Canonical auxiliary values (C07): every auxiliary variable set to *)
+(* the mathematical value of the expression that defines it.  Only defined    *)
+(* when every step is determined by a functional constraint (the "native"     *)
+(* acceptance configurations); the values need not respect the bounds.        *)
+StepVal(d, st, x, D) ==
+  IF st.det = 0 \/ st.dk # "func" THEN {}
+  ELSE LET c == d.cons[st.det]
+       IN IF c.k \in {"linfunc", "quadfunc"}
+            THEN LET sum == PAdd(BodyVal(c.expr, x), RhsU(c.expr.c, D))
+                 IN IF sum[2] = 0 /\ sum[1] % D = 0 THEN {sum[1] \div D} ELSE {}
+          ELSE IF c.k = "cond" THEN {D * B2I(AlgSat(c.con, x, D))}
+          ELSE {FuncVal(c, x, D)}
+RECURSIVE CanonFrom(_, _, _, _)
+\* returns {} (not canonical) or {x}
+CanonFrom(d, k, x, D) ==
+  IF k > Len(d.steps) THEN {x}
+  ELSE LET st == d.steps[k]  vs == StepVal(d, st, x, D)
+       IN IF vs = {} THEN {} ELSE CanonFrom(d, k + 1, [x EXCEPT ![st.v] = CHOOSE v \in vs : TRUE], D)
+Canon(d, p, D) == CanonFrom(d, 1, Start(d, p), D)
 =============================================================================
